@@ -412,7 +412,10 @@ var decRe = regexp.MustCompile(`^(-?)([0-9]+)(?:\.([0-9]+))?$`)
 
 var (
 	plainAlphabet = []rune("abcxyz019")
-	fullAlphabet  = []rune("abcXYZ019 _-./:[]=\\\"'<>&*@#{},\té世 \U0001F600")
+	// hostileStrings are whole values with a meaning somewhere in path handling: the wildcard, relative
+	// path elements, separators and brackets on their own, values that look like escapes or keys.
+	hostileStrings = []string{"*", "**", "...", "..", ".", "/", "//", "[", "]", "=", "\\", "*/*", "a/../b", "x]y/z", "[k=v]", "a=b", " ", "true", "0", "-1", "null"}
+	fullAlphabet   = []rune("abcXYZ019 _-./:[]=\\\"'<>&*@#{},\té世 \U0001F600")
 )
 
 func (g *genCtx) scalar(lt *LType, label string) Val {
@@ -584,6 +587,18 @@ func (g *genCtx) str(lt *LType, label string) string {
 		}
 		if rapid.IntRange(0, 3).Draw(g.t, label+".plain") == 0 {
 			return draw(plainAlphabet, lo, hi)
+		}
+		// hostile constants: values that path and key handling code may special-case
+		if rapid.IntRange(0, 9).Draw(g.t, label+".hostile") == 0 {
+			var c []string
+			for _, h := range hostileStrings {
+				if n := len([]rune(h)); n >= lo && n <= hi {
+					c = append(c, h)
+				}
+			}
+			if len(c) > 0 {
+				return rapid.SampledFrom(c).Draw(g.t, label+".h")
+			}
 		}
 		return draw(fullAlphabet, lo, hi)
 	case "[a-z]+":
